@@ -31,7 +31,8 @@ def main():
                         from molli.storage import Collection, UkvCollectionBackend
 
                         handles[hid] = Collection(cmd["path"], UkvCollectionBackend, readonly=spec["ro"], bufsize=spec["buf"])
-                        atexit.unregister(handles[hid]._backend.flush)
+                        if not spec.get("keep_atexit"):
+                            atexit.unregister(handles[hid]._backend.flush)   # (keep_atexit: a handle exactly as a user's program has it)
                     else:
                         handles[hid] = make_handle(cmd["path"], spec["ro"], spec["buf"])
                 rep = {"ok": True}
@@ -73,7 +74,13 @@ def main():
                     if cmd["mode"] == "w":
                         c_[cmd["key"]] = bytes.fromhex(cmd["val"])
                     during = cmd.get("during")
-                    if during:
+                    if during == "drop":
+                        # the program lets go of ANOTHER handle of the same library (one whose last request timed out) inside this session
+                        import gc
+
+                        handles.pop(cmd["idle"], None)
+                        gc.collect()
+                    elif during:
                         # inside the session this process copies an IDLE handle of the same library (no session is begun on the copy)
                         import copy
                         import pickle
@@ -88,6 +95,15 @@ def main():
                     while not os.path.exists(cmd["gate_file"]) and time.time() - t0 < 60:
                         time.sleep(0.01)
                 rep = {"ok": True}
+            elif op == "try_session":
+                # asks for a writing session with a short timeout; reports whether it got in (and leaves at once)
+                entered = False
+                try:
+                    with handles[cmd["h"]].writing(timeout=cmd["timeout"]):
+                        entered = True
+                except TimeoutError:
+                    pass
+                rep = {"ok": True, "entered": entered}
             elif op == "session":
                 from vf.c04_common import run_session
 
